@@ -48,6 +48,16 @@ class Report:
             od, ot = c.get(k, (0, 0))
             c[k] = (od + d, ot + t)
 
+    def problem(self, text, replay=None, clause='unexpected_library_error'):
+        """a failed scenario: an error raised by the code under test is a violation, anything else a machinery failure"""
+        from lib.errors import is_library
+        if is_library(text):
+            d = dict(kind='library-error', detail=text[:1500])
+            d.update(replay or {})
+            self.violation(clause, d)
+        else:
+            self.machinery.append(text)
+
     def violation(self, clause, replay):
         self.violations.append((clause, replay))
 
